@@ -458,14 +458,14 @@ theorem parseConfigFull_spec (home : Bytes) (defs : List (Bytes × Bytes)) (rxOk
   | none => simp
   | some ms =>
     simp only
-    have hs0 : Inv input.length (input.length + 1) ({ rest := input, macros := ms } : PState) := by
+    have hs0 : Inv input.length (input.length + 1) ({ rest := input, macros := ms } : ParseSt) := by
       constructor
       · show input.length + 0 ≤ input.length; omega
       · show 0 + input.length + 1 ≤ input.length + 1; omega
     have := parseTop_spec { nl := countNl input, home := home, rxOk := rxOk } (input.length + 1) input.length (input.length + 1) []
       (by omega) (by simp) _ hs0
     unfold wp at this
-    have hnl : ∀ s : PState, phi s ≤ input.length + 1 → s.nlex ≤ input.length + 1 := by
+    have hnl : ∀ s : ParseSt, phi s ≤ input.length + 1 → s.nlex ≤ input.length + 1 := by
       intro s h; unfold phi at h; omega
     split at this
     · rename_i blocks s' heq
